@@ -14,11 +14,21 @@
        `li_rel` : the operand of `li` may be rewritten likewise (its width decision goes through
        evaluation); call / tail / branch pseudo-instructions take a reference, not an expression.
   (13) `const_subst_same_result` : for a program whose resolve_constants gives `K ↦ v`, with
-       `P env := env K = some v`.  `arith_subst` : with the real evaluator, an expression `e` and an
-       expression `e'` that tokenizes to the rendering of `e`'s tree with `K` replaced by the literal
-       of `v` are related (from `subst_transparent`, `parse_render`); the two strings must be plain
-       (ASCII, no character literal, ≤ 400 characters) — no string renderer is given, so `e'` is a
-       hypothesis; `arith_name_lit` : the bare name against a literal.
+       `P env := env K = some v`.  `arith_subst` : with the real evaluator, an expression text `e`
+       that parses to the tree `a` and ANY text `e'` that parses to `a` with `K` replaced by the
+       literal of `v` are related — `K + 2` and `16 + 2`, `(16)+2`, `16+ 2`, … (`arith_subst_example`;
+       from `subst_transparent`).  The two strings must be plain (`ArithPlain`: ASCII, not a
+       character literal, at most `maxExprLen` = 400 characters).  `arith_name_lit` : the bare name
+       against a literal.
+       NOT covered: rewriting inside a constant DEFINITION that uses another constant (`J = K + 1`
+       against `J = 16 + 1`): `ItemRel.constant` relates two definitions only when their expressions
+       agree in EVERY environment, because resolve_constants evaluates a definition in the table
+       built so far, about which `P` (a property of the FINAL table) says nothing.
+       BOUNDS of the evaluator (BB.Expr): `evalArith` answers `.unsupported` for a text longer than
+       `maxExprLen` = 400 characters and for `<<` with a count above 4096 (CPython would go on; the
+       model does not follow it there).  The congruence theorems compare `Except` values, so they
+       hold there too, but an `.unsupported` verdict says nothing about /repo; `arith_subst`,
+       `lit_dec_ok` ask for the length bound explicitly, `eval_shl` (C11) for `0 ≤ y ≤ 4096`.
   (14) `alias_same_result` : register operands (shift amounts included) rewritten by any `g` with
        `aliasReg constants (g r) = aliasReg constants r` — e.g. `.str K ↦ .int v` when
        `constants.get K = some v` (`alias_transparent`) — give the same result.
@@ -29,7 +39,9 @@
   Everything is at the level of `assembleItems` (item lists with the SAME `Line`s).  For `assembleText`
   only `text_congruence`: given the two item lists the front end produces, related up to a renaming of
   the lines (the `contents` of a rewritten source line differs), the results are equal, errors up to
-  that renaming.  That the front end produces such lists for two concrete texts is not proved in general.
+  that renaming.  That the front end produces such lists is a hypothesis (two `frontEnd … = .ok …`
+  facts), discharged by evaluation for concrete texts: `text_congruence_example` does it for
+  `K = 16 / addi x0, x0, K + 2` against `K = 16 / addi x0, x0, 16 + 2`, both modes.
 -/
 import BB.Lemmas.ImmCongPasses
 import BB.Props.C11Subst
@@ -107,12 +119,16 @@ theorem evalArithL_plain {l : List Char} (h : ArithPlain l) (env : String → Op
   unfold evalArithL
   simp only [h1, not_true_eq_false, if_false, h2, Nat.not_lt.mpr h3]
 
-/-- **substituting inside an expression.**  `e` parses to the tree `a`; `e'` tokenizes to the rendering
-    of `a` with `K` replaced by the literal of `v`.  Then the two strings are related. -/
-theorem arith_subst (fs : FS) (K : String) (v : Int) {e e' : String} {toks : List Tok} {a : Ast}
+/-- **substituting inside an expression.**  `e` parses to the tree `a`; `e'` is ANY text that parses
+    to `a` with `K` replaced by the literal of `v` (`Ast.subst`: the numeral, or `-` applied to the
+    numeral for a negative `v`) — however it is spaced or parenthesised.  Then the two strings are
+    related: same value, or the same failure, in every environment with `K ↦ v`.
+    Bounds: both texts `ArithPlain` (ASCII, not a character literal, at most `maxExprLen` = 400
+    characters — beyond that the model's evaluator answers `.unsupported`). -/
+theorem arith_subst (fs : FS) (K : String) (v : Int) {e e' : String} {toks toks' : List Tok} {a : Ast}
     (hp : ArithPlain e.toList) (hp' : ArithPlain e'.toList)
     (ht : tokenize e.toList = .ok toks) (ha : parseExpr toks = .ok a)
-    (ht' : tokenize e'.toList = .ok (renderAst (Ast.subst K v a))) :
+    (ht' : tokenize e'.toList = .ok toks') (ha' : parseExpr toks' = .ok (Ast.subst K v a)) :
     ImmRel (textHooks fs) (fun env => env K = some v) (.arith e) (.arith e') := by
   refine .arith e e' ?_
   intro env hK
@@ -121,8 +137,17 @@ theorem arith_subst (fs : FS) (K : String) (v : Int) {e e' : String} {toks : Lis
   rw [evalArithL_plain hp, evalArithL_plain hp']
   unfold evalPy
   rw [ht, ht']
-  simp only [parse_render, ha]
+  simp only [ha, ha']
   exact (subst_transparent env K v hK a).symm
+
+/-- the former formulation as a special case: `e'` tokenizes to the (fully parenthesised) rendering
+    of the substituted tree -/
+theorem arith_subst_render (fs : FS) (K : String) (v : Int) {e e' : String} {toks : List Tok} {a : Ast}
+    (hp : ArithPlain e.toList) (hp' : ArithPlain e'.toList)
+    (ht : tokenize e.toList = .ok toks) (ha : parseExpr toks = .ok a)
+    (ht' : tokenize e'.toList = .ok (renderAst (Ast.subst K v a))) :
+    ImmRel (textHooks fs) (fun env => env K = some v) (.arith e) (.arith e') :=
+  arith_subst fs K v hp hp' ht ha ht' (parse_render _)
 
 /-- the bare name against any spelling of its value -/
 theorem arith_name_lit (fs : FS) (K lit : String) (v : Int)
@@ -371,6 +396,84 @@ theorem progR_same (c : Bool) : assembleItems (textHooks fs0) c progR [] [] = as
 
 example : assembleItems (textHooks fs0) false progR' [] [] =
     .ok { bytes := [147, 2, 16, 0, 19, 21, 85, 0], labels := [], constants := [("K", 5)] } := by decide +kernel
+
+/-! ### instances on ordinary text -/
+
+/-- `arith_subst` on ordinary text: `K + 2` against `16 + 2` (K = 16) … -/
+theorem arith_subst_example :
+    ImmRel (textHooks fs0) (fun env => env "K" = some 16) (.arith "K + 2") (.arith "16 + 2") :=
+  arith_subst fs0 "K" 16 (e := "K + 2") (e' := "16 + 2")
+    (toks := [.name "K", .plus, .num 2]) (toks' := [.num 16, .plus, .num 2])
+    (a := .binary .add (.name "K") (.lit 2))
+    ⟨by decide +kernel, by decide +kernel, by decide +kernel⟩ ⟨by decide +kernel, by decide +kernel, by decide +kernel⟩
+    (by decide +kernel) (by decide +kernel) (by decide +kernel) (by decide +kernel)
+
+/-- … and with a negative value and other spacing: `4 * K` against `4*-3` (K = -3) -/
+example : ImmRel (textHooks fs0) (fun env => env "K" = some (-3)) (.arith "4 * K") (.arith "4*-3") :=
+  arith_subst fs0 "K" (-3) (e := "4 * K") (e' := "4*-3")
+    (toks := [.num 4, .star, .name "K"]) (toks' := [.num 4, .star, .minus, .num 3])
+    (a := .binary .mul (.lit 4) (.name "K"))
+    ⟨by decide +kernel, by decide +kernel, by decide +kernel⟩ ⟨by decide +kernel, by decide +kernel, by decide +kernel⟩
+    (by decide +kernel) (by decide +kernel) (by decide +kernel) (by decide +kernel)
+
+def textK : String := "K = 16\naddi x0, x0, K + 2\n"
+def textV : String := "K = 16\naddi x0, x0, 16 + 2\n"
+def lineK : Line := ⟨"<string>", 2, "addi x0, x0, K + 2"⟩
+def lineV : Line := ⟨"<string>", 2, "addi x0, x0, 16 + 2"⟩
+def itemsK : List Item :=
+  [.constant (l 1 "K = 16") "K" (.arith "16"),
+   .instr lineK (.i "addi" (.str "x0") (.str "x0") (.arith "K + 2") false)]
+def itemsV : List Item :=
+  [.constant (l 1 "K = 16") "K" (.arith "16"),
+   .instr lineV (.i "addi" (.str "x0") (.str "x0") (.arith "16 + 2") false)]
+
+theorem frontEnd_textK : frontEnd fs0 "/" [] (.source textK) = .ok itemsK := by
+  unfold frontEnd
+  have h0 : normAbs "/" = true := by decide
+  have h1 : sourceOk textK.toList = true := by decide
+  have hs : splitLines textK.toList = ["K = 16".toList, "addi x0, x0, K + 2".toList] := by decide
+  simp only [h0, List.all_nil, h1, readLinesAux.eq_2, hs]
+  simp only [readLinesAux.go.eq_2, readLinesAux.go.eq_1]
+  decide +kernel
+
+theorem frontEnd_textV : frontEnd fs0 "/" [] (.source textV) = .ok itemsV := by
+  unfold frontEnd
+  have h0 : normAbs "/" = true := by decide
+  have h1 : sourceOk textV.toList = true := by decide
+  have hs : splitLines textV.toList = ["K = 16".toList, "addi x0, x0, 16 + 2".toList] := by decide
+  simp only [h0, List.all_nil, h1, readLinesAux.eq_2, hs]
+  simp only [readLinesAux.go.eq_2, readLinesAux.go.eq_1]
+  decide +kernel
+
+/-- **`text_congruence` has an instance**: the two source TEXTS `K = 16 / addi x0, x0, K + 2` and
+    `K = 16 / addi x0, x0, 16 + 2` go through the whole of `assembleText` to the same result, with
+    and without `-c` (errors would agree up to the renaming of line 2, whose text differs) … -/
+theorem text_congruence_example (c : Bool) :
+    assembleText fs0 "/" [] c (.source textV) =
+      mapErrLine (fun ln => if ln = lineK then lineV else ln) (assembleText fs0 "/" [] c (.source textK)) := by
+  have e : itemsK.map (Item.mapLine (fun ln => if ln = lineK then lineV else ln)) =
+      [.constant (l 1 "K = 16") "K" (.arith "16"),
+       .instr lineV (.i "addi" (.str "x0") (.str "x0") (.arith "K + 2") false)] := by decide +kernel
+  refine text_congruence fs0 "/" [] c (.source textK) (.source textV) _ (fun env => env "K" = some 16)
+    frontEnd_textK frontEnd_textV ?_ ?_
+  · rw [e]
+    exact .cons (.refl _) (.cons (.instr _ (Or.inr ⟨_, _, rfl, arith_subst_example, rfl⟩)) .nil)
+  · intro out constants h L
+    rw [e] at h
+    have : resolveConstants (textHooks fs0)
+        [.constant (l 1 "K = 16") "K" (.arith "16"),
+         .instr lineV (.i "addi" (.str "x0") (.str "x0") (.arith "K + 2") false)] [] =
+        .ok ([.instr lineV (.i "addi" (.str "x0") (.str "x0") (.arith "K + 2") false)], [("K", 16)]) := by
+      decide +kernel
+    rw [this] at h
+    cases h
+    rfl
+
+/-- … namely `addi x0, x0, 18` -/
+example : assembleText fs0 "/" [] false (.source textV) =
+    .ok { bytes := [19, 0, 32, 1], labels := [], constants := [("K", 16)] } := by
+  simp only [assembleText, frontEnd_textV, bind, Except.bind]
+  decide +kernel
 
 /-! ### where a name and its value do NOT give the same binary -/
 
